@@ -437,7 +437,7 @@ func main() {
 
 	// 1. programs
 	var progs []*prog
-	for _, c := range corpus() {
+	for _, c := range corpus(*tier) {
 		progs = append(progs, &prog{Key: c.Key, Main: c.Main, Files: c.Files, Corpus: true, Reject: c.Reject})
 	}
 	st.CorpusPrograms = len(progs)
